@@ -23,6 +23,7 @@ type Options struct {
 	MaxExec     int       // cap on executions (0 = none)
 	Deadline    time.Time // zero = none
 	ReplayEvery int       // re-run every N-th execution from its recorded choices (0 = 64)
+	GroupDepth  int       // see vrt.Config.GroupDepth
 }
 
 type Failure struct {
@@ -57,13 +58,13 @@ func Explore(opt Options, mk Harness) *Result {
 	if opt.ReplayEvery == 0 {
 		opt.ReplayEvery = 64
 	}
-	seen := map[string]int{}
+	seen := map[vrt.StateKey]int{}
 	failed := map[string]bool{}
 
 	runOnce := func(prefix []int, trace bool) (*vrt.Sched, string, string) {
 		body, check := mk()
 		s := vrt.Run(vrt.Config{Prefix: prefix, Horizon: opt.Horizon, MapBranch: opt.MapBranch,
-			TimerBudget: opt.TimerBudget, StartBranch: opt.StartBranch, Trace: trace, NoKeys: !opt.Cache, KeyNoLast: opt.Bound < 0}, body)
+			TimerBudget: opt.TimerBudget, StartBranch: opt.StartBranch, Trace: trace, NoKeys: !opt.Cache, KeyNoLast: opt.Bound < 0, GroupDepth: opt.GroupDepth}, body)
 		v, o := "", ""
 		switch {
 		case s.Diverged != "":
